@@ -410,9 +410,18 @@ public:
       decltype(this),
       T_Args...>;
 
-    bool created = true;
+    // creation can fail by returning false or, when aborts are surfaced as
+    // exceptions, by throwing: either way the sandbox is then not created and
+    // creating it can be attempted again
+    bool created = false;
+    auto reset_on_failure = detail::make_scope_exit([&] {
+      if (!created) {
+        sandbox_created.store(Sandbox_Status::NOT_CREATED);
+      }
+    });
     if constexpr (std::is_same_v<T_Result, void>) {
       this->impl_create_sandbox(std::forward<T_Args>(args)...);
+      created = true;
     } else if constexpr (std::is_same_v<T_Result, bool>) {
       created = this->impl_create_sandbox(std::forward<T_Args>(args)...);
     } else {
@@ -425,10 +434,6 @@ public:
       sandbox_created.store(Sandbox_Status::CREATED);
       RLBOX_ACQUIRE_UNIQUE_GUARD(lock, sandbox_list_lock);
       sandbox_list.push_back(this);
-    } else {
-      // creation failed: the sandbox is not created, so creating it can be
-      // attempted again
-      sandbox_created.store(Sandbox_Status::NOT_CREATED);
     }
 
     return created;
